@@ -98,7 +98,7 @@ def main(argv):
                 missed += 1
                 continue
             for prop, res in r["results"].items():
-                ok = res["exit"] == 1
+                ok = res["exit"] == 1 and bool(res["keys"])  # a crash of the harness also exits 1: a kill needs a VIOLATION line
                 if not ok:
                     missed += 1
                 print(f"{'KILLED ' if ok else 'MISSED '} {r['patch']:60s} {prop} exit={res['exit']} keys={res['keys']} {res['wall']}s" + (f" tests={r['tests']}" if r["tests"] else "") + (" " + str(res.get("inconclusive")) if res.get("inconclusive") else ""))
